@@ -661,7 +661,16 @@ class RuleSet(object):
 
     # -- canonical forms
     def canon_entry(self, e):
-        idks = [k for k in e if k.endswith("_id") and k != "system_id"]
+        """never raises: an entry of an unexpected shape is canonicalised as such (and then differs from the model)"""
+        if not isinstance(e, dict):
+            return {"malformed": repr(e)[:200]}
+        try:
+            return self._canon_entry(e)
+        except Exception as ex:
+            return {"malformed": repr(e)[:200], "error": type(ex).__name__}
+
+    def _canon_entry(self, e):
+        idks = [k for k in e if isinstance(k, str) and k.endswith("_id") and k != "system_id"]
         idk = idks[0] if len(idks) == 1 else None
         return {"src": self.by_name.get(e.get("component"), -1),
                 "idn": senc(idk) if idk else "?", "idv": senc(e[idk]) if idk else "?",
@@ -676,8 +685,13 @@ class RuleSet(object):
             i = self.ids.get(c)
             if i in self.rule_ids:
                 excs[str(i)] = [exc_kind(x) for x in lst]
-        return {"results": {senc(t): [self.canon_entry(e) for e in es] for t, es in ev.results.items() if es},
-                "skips": [{"src": inv.get(id(s), -1), "fields": cdict(s)} for s in ev.rule_skips],
+        results = {}
+        for t, es in (ev.results.items() if isinstance(ev.results, dict) else []):
+            if es:
+                results[senc(t)] = [self.canon_entry(e) for e in es] if isinstance(es, (list, tuple)) else {"malformed": repr(es)[:200]}
+        skips = ev.rule_skips if isinstance(ev.rule_skips, (list, tuple)) else [ev.rule_skips]
+        return {"results": results,
+                "skips": [{"src": inv.get(id(s), -1), "fields": cdict(s)} for s in skips],
                 "metadata": cdict(ev.metadata), "mdkeys": cdict(ev.metadata_keys), "excs": excs,
                 "stored": sorted(self.ids[c] for c in b.instances if self.ids.get(c) in self.rule_ids)}
 
@@ -703,6 +717,8 @@ def soften_state(model, impl):
 def canon_report(rs, resp):
     """canonical form of a (filtered) top-level response: list of [heading, kind] sorted by heading"""
     out = []
+    if not isinstance(resp, dict):
+        return [["?", {"val": "?" + repr(resp)[:200]}]]
     for h, v in resp.items():
         if h == "analysis_metadata" and isinstance(v, dict) and "start" in v:
             t = {"analysis": None}
@@ -907,6 +923,115 @@ def oracle_ruleset(rs, results, skips, exc_ids, metadata, mdkeys, b, limit, orde
     return out
 
 
+# --------------------------------------------------------------------------- shapes of what the implementation hands out
+# An entry, a skip or a whole response of an unexpected shape is an OBSERVATION about the implementation: it is reported
+# through the oracle and left out of what the accounting oracles then look at.  Nothing here raises.
+
+ENTRY_FIELDS = (("component", str), ("type", str), ("details", dict), ("tags", (list, tuple)), ("links", dict))
+ENTRY_HEADINGS = ("reports", "fingerprints", "rule", "fingerprint", "info", "pass", "none", "vcustom", "vnokey")
+
+
+def entry_problem(x):
+    """None when x has the shape of a result entry, otherwise what is wrong with it"""
+    if not isinstance(x, dict):
+        return "it is a %s, not a dict" % type(x).__name__
+    for k, t in ENTRY_FIELDS:
+        if k not in x:
+            return "it has no %r" % k
+        if not isinstance(x[k], t):
+            return "its %r is a %s" % (k, type(x[k]).__name__)
+    if "key" not in x:
+        return "it has no 'key'"
+    if not all(isinstance(t, str) for t in x["tags"]):
+        return "its tags are not strings"
+    ids = [k for k in x if isinstance(k, str) and k.endswith("_id") and k != "system_id"]
+    if len(ids) != 1:
+        return "it has %d '<type>_id' fields" % len(ids)
+    return None
+
+
+def clean_entries(label, heading, v, probs):
+    if not isinstance(v, (list, tuple)):
+        probs.append("%s: heading %r holds a %s instead of a list of entries: %r" % (label, heading, type(v).__name__, v))
+        return []
+    out = []
+    for x in v:
+        why = entry_problem(x)
+        if why:
+            probs.append("%s lists a malformed entry %r under heading %r (%s)" % (label, x, heading, why))
+        else:
+            out.append(x)
+    return out
+
+
+def clean_skips(label, v, probs):
+    if not isinstance(v, (list, tuple)):
+        probs.append("%s: 'skips' is a %s, not a list: %r" % (label, type(v).__name__, v))
+        return []
+    out = []
+    for x in v:
+        if isinstance(x, dict):
+            out.append(x)
+        else:
+            probs.append("%s lists a malformed skip entry %r (a %s, not a dict)" % (label, x, type(x).__name__))
+    return out
+
+
+def sanitize_response(label, resp, mdkeys=None):
+    """(response with only well-formed parts, [what was malformed]) for a get_response() value or a printed document"""
+    probs = []
+    if not isinstance(resp, dict):
+        return {}, ["%s is a %s, not a dict: %r" % (label, type(resp).__name__, resp)]
+    mdkeys = mdkeys if isinstance(mdkeys, dict) else {}
+    clean = {}
+    for h, v in resp.items():
+        if h == "system":
+            if not isinstance(v, dict):
+                probs.append("%s: 'system' is a %s: %r" % (label, type(v).__name__, v))
+                v = {}
+            elif "metadata" in v and not isinstance(v["metadata"], dict):
+                probs.append("%s: system.metadata is a %s: %r" % (label, type(v["metadata"]).__name__, v["metadata"]))
+                v = {k: x for k, x in v.items() if k != "metadata"}
+            clean[h] = v
+        elif h == "skips":
+            clean[h] = clean_skips(label, v, probs)
+        elif h == "analysis_metadata":
+            clean[h] = v
+        elif h in mdkeys and v == mdkeys[h]:
+            clean[h] = v                                  # a metadata key under its own name
+        elif h in ENTRY_HEADINGS or (isinstance(v, (list, tuple)) and any(isinstance(x, dict) and "component" in x for x in v)):
+            clean[h] = clean_entries(label, h, v, probs)
+        else:
+            clean[h] = v
+    return clean, probs
+
+
+def sanitize_results(label, results, probs):
+    """the evaluator's / formatter's own `results` dict with only well-formed entries"""
+    if not isinstance(results, dict):
+        probs.append("%s.results is a %s, not a dict" % (label, type(results).__name__))
+        return {}
+    return {t: clean_entries(label + ".results", t, es, probs) for t, es in results.items()}
+
+
+def as_dict(label, what, v, probs):
+    if isinstance(v, dict):
+        return dict(v)
+    probs.append("%s: %s is a %s, not a dict: %r" % (label, what, type(v).__name__, v))
+    return {}
+
+
+def guarded(fails, label, fn, *a, **kw):
+    """run one oracle; an exception inside it is itself reported (the harness must not crash on a changed implementation)"""
+    try:
+        return fn(*a, **kw)
+    except Exception as ex:
+        import traceback
+        fails.append(("%s: the oracle could not examine what the implementation handed out (%s: %s; %s)"
+                      % (label, type(ex).__name__, ex, traceback.format_exc().strip().splitlines()[-3].strip()), None))
+        return []
+
+
 HEADING_TYPE = {"reports": "rule", "fingerprints": "fingerprint"}
 RESERVED_HEADINGS = ("system", "reports", "fingerprints", "skips", "analysis_metadata")
 
@@ -914,7 +1039,7 @@ RESERVED_HEADINGS = ("system", "reports", "fingerprints", "skips", "analysis_met
 def results_from_response(resp):
     """the typed entries as get_response() presents them: {type: [entry]} by heading"""
     res = {}
-    for h, v in resp.items():
+    for h, v in (resp.items() if isinstance(resp, dict) else []):
         if h in ("system", "skips", "analysis_metadata"):
             continue
         if isinstance(v, list) and v and all(isinstance(x, dict) and "component" in x and "details" in x for x in v):
@@ -933,6 +1058,8 @@ def spec_show(f):
 
 
 def plain_entry(x):
+    if not isinstance(x, dict):
+        return {"malformed": repr(x)}
     return {k: (dict(v) if isinstance(v, dict) else v) for k, v in x.items() if k not in ("rendered_content", "system_id")}
 
 
@@ -1145,18 +1272,37 @@ def evaluate(rs, chk=None):
             restore_enabled()
 
 
+def account(rs, fails, label, view, results, mdkeys, exc_ids, b, limit, order, md_drop=(), **kw):
+    """the accounting oracle on one sanitised view (a get_response() value or a printed document)"""
+    md = as_dict(label, "system.metadata", (view.get("system") or {}).get("metadata", {}), [])
+    for k in md_drop:
+        md.pop(k, None)
+    for desc, finding in guarded(fails, label, oracle_ruleset, rs, results, [dict(x) for x in view.get("skips", [])],
+                                 exc_ids, md, mdkeys, b, limit, order, **kw):
+        fails.append((label + ": " + desc, finding))
+
+
 def _evaluate(rs, case, limit, lines, impl, kinds, fails, unfiltered, order0):
     with Limit(limit):
         runs = [(SingleEvaluator, None)] + [(InsightsEvaluator, sc) for sc in case.get("scenarios", UNIFORM_SCENARIOS[:1])]
         for E, sc in runs:
+            name = E.__name__ if sc is None else "InsightsEvaluator[%s]" % ",".join("%s=%s" % kv for kv in sorted(sc.items()))
             b = rs.broker()
             graph = rs.graph
             if sc is not None:
                 seed_decoration(b, sc)
                 graph = deco_graph(rs, sc)
-            ev = E(b, stream=io.StringIO())
-            resp = ev.process(graph)
-            name = E.__name__ if sc is None else "InsightsEvaluator[%s]" % ",".join("%s=%s" % kv for kv in sorted(sc.items()))
+            try:
+                ev = E(b, stream=io.StringIO())
+                raw = ev.process(graph)
+            except Exception as ex:
+                fails.append(("%s.process raised %s: %s" % (name, type(ex).__name__, ex), None))
+                continue
+            probs = []
+            mdkeys = as_dict(name, "metadata_keys", ev.metadata_keys, probs)
+            resp, p2 = sanitize_response(name + ".get_response()", raw, mdkeys)
+            for d in probs + p2:
+                fails.append((d, None))
             if E is SingleEvaluator:
                 unfiltered = resp
                 order0 = list(b.vorder)
@@ -1181,24 +1327,24 @@ def _evaluate(rs, case, limit, lines, impl, kinds, fails, unfiltered, order0):
                                                    "branch": bool(ev.branch_info)}})
                 kinds.append("istate:" + E.__name__)
             exc_ids = set(int(i) for i in st["excs"])
-            md = dict(resp.get("system", {}).get("metadata", {}))
-            if sc is not None and ev.release:
-                md.pop("release", None)         # decoration: format_response puts the release into the metadata
-            # the oracle looks at what get_response() hands out (and broker.exceptions), not at the evaluator's fields
-            for desc, finding in oracle_ruleset(rs, results_from_response(resp), [dict(s) for s in resp.get("skips", [])],
-                                                exc_ids, md, dict(ev.metadata_keys), b, limit, b.vorder):
-                fails.append((name + ".get_response: " + desc, finding))
-            for k, v in ev.metadata_keys.items():
-                if k not in RESERVED_HEADINGS and k not in ev.results and resp.get(k) != v:
+            # the oracle looks at what get_response() hands out (and broker.exceptions), not at the evaluator's fields;
+            # decoration: format_response puts the release into the metadata
+            account(rs, fails, name + ".get_response", resp, results_from_response(resp), mdkeys, exc_ids, b, limit, b.vorder,
+                    md_drop=("release",) if (sc is not None and ev.release) else ())
+            for k, v in mdkeys.items():
+                if k not in RESERVED_HEADINGS and k not in (ev.results if isinstance(ev.results, dict) else {}) and resp.get(k) != v:
                     fails.append(("%s.get_response: metadata key %r is %r in the response, expected %r" % (name, k, resp.get(k), v), None))
-            if sc is not None and b.vorder == order0:
-                for desc in same_accounting(rs, name, resp, unfiltered, ev.release):
+            if sc is not None and b.vorder == order0 and unfiltered is not None:
+                for desc in guarded(fails, name, same_accounting, rs, name, resp, unfiltered, ev.release):
                     fails.append((desc, None))
             # get_response: headings
             lines.append("resp\t1\t%s" % ",".join(enc(s) for s in ["rule", "info", "pass", "none", "metadata", "fingerprint"]))
-            impl.append(canon_report(rs, resp))
+            impl.append(canon_report(rs, raw))
             kinds.append("report:" + E.__name__)
         for f in case["fmts"]:
+            opts = "%s formatter (options %s%s%s%s)" % (f["kind"], "-m " if f["missing"] else "", "-F " if f["fail_only"] else "",
+                                                       "-r " if f.get("render") else "",
+                                                       "-S " + " ".join(f["show"]) if f["show"] else "")
             adapter = parse_args(f["kind"], f)
             k = "options:%s%s%s%s%s" % (f["kind"], " -m" if f["missing"] else "", " -F" if f["fail_only"] else "",
                                         " -r" if f.get("render") else "", " -S" if f["show"] else "")
@@ -1209,42 +1355,53 @@ def _evaluate(rs, case, limit, lines, impl, kinds, fails, unfiltered, order0):
             # the whole public path for both formats: adapter built from the parsed options, preprocess / run /
             # postprocess.  The formatter writes to the stream it was constructed with (sys.stdout by default): it
             # is redirected only if it is a stream at all, so a mis-bound argument is not papered over.
-            adapter.preprocess(b)
-            fmt = adapter.formatter
-            if hasattr(fmt.stream, "write"):
-                fmt.stream = buf
-            dr.run(rs.graph, broker=b)
+            try:
+                adapter.preprocess(b)
+                fmt = adapter.formatter
+                if hasattr(fmt.stream, "write"):
+                    fmt.stream = buf
+                dr.run(rs.graph, broker=b)
+            except Exception as ex:
+                fails.append(("%s raised %s before printing: %s" % (opts, type(ex).__name__, ex), None))
+                continue
+            shown_raw = None
             try:
                 adapter.postprocess(b)
-                shown = json.loads(buf.getvalue()) if f["kind"] == "json" else yaml.unsafe_load(buf.getvalue())
-                if not isinstance(shown, dict):
+                shown_raw = json.loads(buf.getvalue()) if f["kind"] == "json" else yaml.unsafe_load(buf.getvalue())
+                if not isinstance(shown_raw, dict):
                     raise ValueError("formatter printed %r" % (buf.getvalue()[:80],))
             except Exception as e:
                 raised = e
             if raised is not None:
-                shown = {"!formatter raised": type(raised).__name__}
-                fails.append(("%s formatter raised %s: %s" % (f["kind"], type(raised).__name__, raised), None))
+                shown_raw = {"!formatter raised": type(raised).__name__}
+                fails.append(("%s raised %s: %s" % (opts, type(raised).__name__, raised), None))
+            probs = []
+            mdkeys = as_dict(opts, "metadata_keys", fmt.metadata_keys, probs)
+            shown, p2 = sanitize_response(opts + ", the printed document", shown_raw, mdkeys)
+            own = sanitize_results(type(fmt).__name__ + " " + opts, fmt.results, probs)
+            own_skips = clean_skips(type(fmt).__name__ + " " + opts, fmt.rule_skips, probs)
+            for d in probs + p2:
+                fails.append((d, None))
             st = rs.canon_state(fmt, b)
             lines.append(rs.run_line(b.vorder))
             impl.append(st)
             kinds.append("state:" + type(fmt).__name__)
             lines.append("adapter\t%d\t%d\t%s" % (f["missing"], f["fail_only"], ",".join(enc(s) for s in f["show"]) or "-"))
-            impl.append([enc(s) for s in adapter.show_rules])
+            impl.append([senc(s) for s in (adapter.show_rules if isinstance(adapter.show_rules, (list, tuple)) else [adapter.show_rules])])
             kinds.append("adapter")
-            lines.append("resp\t%d\t%s" % (adapter.missing, ",".join(enc(s) for s in adapter.show_rules) or "-"))
-            impl.append(canon_report(rs, shown))
+            lines.append("resp\t%d\t%s" % (bool(adapter.missing), ",".join(senc(s) for s in adapter.show_rules) or "-")
+                         if isinstance(adapter.show_rules, (list, tuple)) and all(isinstance(x, str) for x in adapter.show_rules)
+                         else "resp\t0\t-")
+            impl.append(canon_report(rs, shown_raw))
             kinds.append("report:" + f["kind"])
             exc_ids = set(int(i) for i in st["excs"])
             # accounting on what the formatter PRINTED (for the types that were not filtered out)
-            if raised is None:
-                for desc in oracle_formatter(rs, unfiltered, shown, f, same_order=(b.vorder == order0)):
-                    fails.append(("%s formatter (options %s%s%s): %s" % (
-                        f["kind"], "-m " if f["missing"] else "", "-F " if f["fail_only"] else "",
-                        "-S " + " ".join(f["show"]) if f["show"] else "", desc), None))
+            if raised is None and unfiltered is not None:
+                for desc in guarded(fails, opts, oracle_formatter, rs, unfiltered, shown, f, same_order=(b.vorder == order0)):
+                    fails.append(("%s: %s" % (opts, desc), None))
             # the formatter's own bookkeeping (JsonFormat has its own handle_result)
-            for desc, finding in oracle_ruleset(rs, dict(fmt.results), [dict(x) for x in fmt.rule_skips], exc_ids,
-                                                dict(fmt.metadata), dict(fmt.metadata_keys), b, limit, b.vorder):
-                fails.append((type(fmt).__name__ + ": " + desc, finding))
+            account(rs, fails, type(fmt).__name__ + " " + opts, {"skips": own_skips, "system": {"metadata": fmt.metadata}},
+                    own, mdkeys, exc_ids, b, limit, b.vorder)
     return lines, impl, kinds, fails
 
 
@@ -1399,6 +1556,49 @@ def make_evaluator(name, b, buf):
     return E(b, stream=buf)
 
 
+def run_history_ops(kind, e, gA, gB, gAll, process, drrun, reg):
+    if kind in ("seq-disjoint", "seq-dependent"):
+        process(gA)
+        process(gB)
+    elif kind == "seq-overlap":
+        process(gA)
+        process(gAll)
+    elif kind == "seq-same":
+        process(gAll)
+        process(gAll)
+    elif kind == "with-process":
+        reg()
+        with e as ee:
+            process(gAll)
+            assert ee is e
+    elif kind == "with-with-run":
+        reg()
+        with e:
+            reg()
+            with e:
+                drrun(gAll)
+    elif kind == "with-run":
+        reg()
+        with e:
+            drrun(gAll)
+    elif kind == "pre-process":
+        reg()
+        e.preprocess()
+        process(gAll)
+    elif kind == "multi-add":
+        for _ in range(2):
+            reg()
+            e.broker.add_observer(e.observer)
+        process(gAll)
+    elif kind == "process-with-run":
+        process(gA)
+        reg()
+        with e:
+            drrun(gB)
+    else:
+        raise ValueError(kind)
+
+
 def run_history(rs, ev_name, kind):
     """one evaluator object used the way `kind` says.  Returns (lines, impl answers, kinds, oracle findings)."""
     case = rs.case
@@ -1447,47 +1647,16 @@ def run_history(rs, ev_name, kind):
             dr.run(g, broker=e.broker)
             ran(g, start)
 
-        if kind in ("seq-disjoint", "seq-dependent"):
-            process(gA)
-            process(gB)
-        elif kind == "seq-overlap":
-            process(gA)
-            process(gAll)
-        elif kind == "seq-same":
-            process(gAll)
-            process(gAll)
-        elif kind == "with-process":
-            reg()
-            with e as ee:
-                process(gAll)
-                assert ee is e
-        elif kind == "with-with-run":
-            reg()
-            with e:
-                reg()
-                with e:
-                    drrun(gAll)
-        elif kind == "with-run":
-            reg()
-            with e:
-                drrun(gAll)
-        elif kind == "pre-process":
-            reg()
-            e.preprocess()
-            process(gAll)
-        elif kind == "multi-add":
-            for _ in range(2):
-                reg()
-                e.broker.add_observer(e.observer)
-            process(gAll)
-        elif kind == "process-with-run":
-            process(gA)
-            reg()
-            with e:
-                drrun(gB)
-        else:
-            raise ValueError(kind)
-        resp = e.get_response()
+        try:
+            run_history_ops(kind, e, gA, gB, gAll, process, drrun, reg)
+        except Exception as ex:
+            fails.append(("%s history %s raised %s: %s" % (ev_name, kind, type(ex).__name__, ex), None))
+
+        try:
+            raw = e.get_response()
+        except Exception as ex:
+            fails.append(("%s history %s: get_response() raised %s: %s" % (ev_name, kind, type(ex).__name__, ex), None))
+            raw = {}
         st = rs.canon_state(e, b)
     lines.append("hstate")
     impl = ["ok"] * (len(lines) - 1) + [st]
@@ -1498,6 +1667,11 @@ def run_history(rs, ev_name, kind):
         participants |= keys
         order += [i for i in fired if i in keys and i not in order]      # first evaluation of each rule
     exc_ids = set(int(i) for i in st["excs"])
+    label = "%s history %s" % (ev_name, kind)
+    probs = []
+    mdkeys = as_dict(label, "metadata_keys", e.metadata_keys, probs)
+    resp, p2 = sanitize_response(label + ", get_response()", raw, mdkeys)
+    probs += p2
     views = [("get_response", resp)]
     if ev_name in ("JsonFormat", "YamlFormat"):
         text = buf.getvalue()[marks[-1]:] if marks else buf.getvalue()
@@ -1508,14 +1682,16 @@ def run_history(rs, ev_name, kind):
                 shown = yaml.unsafe_load(text)
             if not isinstance(shown, dict):
                 raise ValueError("printed %r" % text[:80])
+            shown, p3 = sanitize_response(label + ", the printed document", shown, mdkeys)
+            probs += p3
             views.append(("printed", shown))
         except Exception as ex:
-            fails.append(("%s %s: the printed output cannot be read back: %s" % (ev_name, kind, ex), None))
+            fails.append(("%s: the printed output cannot be read back: %s" % (label, ex), None))
+    for d in probs:
+        fails.append((d, None))
     for vname, v in views:
-        for desc, finding in oracle_ruleset(rs, results_from_response(v), [dict(x) for x in v.get("skips", [])], exc_ids,
-                                            dict(v.get("system", {}).get("metadata", {})), dict(e.metadata_keys), b, limit,
-                                            order, participants=participants):
-            fails.append(("%s history %s, %s: %s" % (ev_name, kind, vname, desc), finding))
+        account(rs, fails, "%s, %s" % (label, vname), v, results_from_response(v), mdkeys, exc_ids, b, limit, order,
+                participants=participants)
     return lines, impl, kinds, fails
 
 
@@ -1683,12 +1859,18 @@ def run(chk):
     chk.lean()
 
     # ---- known finding: witness replay
-    ok, skips = witness_skip_stub()
+    try:
+        ok, skips = witness_skip_stub()
+    except Exception as ex:
+        ok, skips = False, "witness raised %s: %s" % (type(ex).__name__, ex)
     chk.witnesses.append({"id": KNOWN_SKIP_STUB, "skips": skips, "reproduces": ok})
     if ok:
         chk.finding_reproduced(KNOWN_SKIP_STUB)
     # ---- regression (fixed 4daf5f3): the YAML adapter path prints and honours -S
-    problems, info = regression_yaml_adapter()
+    try:
+        problems, info = regression_yaml_adapter()
+    except Exception as ex:
+        problems, info = ["the regression run raised %s: %s" % (type(ex).__name__, ex)], {}
     chk.witnesses.append({"fixed": "4daf5f3 yaml adapter arguments", "observed": info, "passes": not problems})
     if problems:
         chk.failure("insights-run -f yaml -S pass (YamlFormatterAdapter): " + "; ".join(problems),
